@@ -1,4 +1,5 @@
 import Gtree.Lemmas.Validate
+import Gtree.Lemmas.NetResult
 /-
   C14 — reader and writer failures are reported, never swallowed (model of the repaired code).
   The writer is a sink with a fault oracle (`WFault`: which write fails, how many bytes of it are
@@ -62,3 +63,30 @@ theorem C14_generation_error_surfaces (job : Job) (inp : Input) (wf : WFault)
     | some ge => simp
 
 end Gtree
+
+namespace Gtree.Net
+
+/-- C14 in the massive mode (chain model of the pipeline, any number of stages, workers and items, every
+    schedule and cancellation instant): if an item failed in ANY stage – a block that does not parse, a name
+    that is not valid, a write or a callback that fails – the call, once it has returned, has not returned
+    nil: a waiter received a stage's error, or the caller had cancelled and the context's error is returned.
+    (`resultIsNil` is what `handlePipelineErr` returns after 1d9ff75: the errgroup's error, else ctx.Err().) -/
+theorem C14_chain_failure_surfaces (todo : Nat) (workers : List Nat) (hw : ∀ w ∈ workers, w ≥ 1) (n : Net)
+    (hr : Reach (init todo workers) n) (hret : n.returned = true)
+    (hf : ∃ a ∈ n.stages, a.failed = true) : n.resultIsNil = false := by
+  obtain ⟨_, g⟩ := ginv_reach _ n (inv_init todo workers hw) (ginv_init todo workers) hr
+  cases hn : n.resultIsNil with
+  | false => rfl
+  | true =>
+    obtain ⟨a, ha, hfa⟩ := hf
+    have := (g.s hret hn a ha).2
+    rw [hfa] at this
+    simp at this
+
+/-- … and a call that returned nil has left nothing behind: every stage has wound down -/
+theorem C14_chain_nil_is_clean (todo : Nat) (workers : List Nat) (hw : ∀ w ∈ workers, w ≥ 1) (n : Net)
+    (hr : Reach (init todo workers) n) (hret : n.returned = true) (hn : n.resultIsNil = true) :
+    ∀ a ∈ n.stages, a.quiet ∧ a.failed = false :=
+  (ginv_reach _ n (inv_init todo workers hw) (ginv_init todo workers) hr).2.s hret hn
+
+end Gtree.Net
